@@ -9,11 +9,11 @@ TRUST = ("Trusted: go/types+go/ssa front end, the VC generator in /verif/engine,
 
 CLAIMED = {
  "C01": dict(
-   text="Deductive proof over certGenHandler: the level loop carries a quantified invariant (sufficient <=> some listed method matches a proven factor bit), and both signing wrappers are reached only under ghostAuthed && sufficientLevel(operator list, level established by checkAuth); all 2^64 level values and lists of any length. A lemma over the constants shows that AuthTypeAny, the mask the endpoint asks checkAuth for, admits a session carrying any single factor.",
+   text="Deductive proof over certGenHandler: the level loop carries a quantified invariant (sufficient <=> some listed method matches a proven factor bit), and both signing wrappers are reached only under ghostAuthed && sufficientLevel(operator list, level established by checkAuth); all 2^64 level values and lists of any length. A lemma over the constants shows that AuthTypeAny, the mask the endpoint asks checkAuth for, admits a session carrying any single factor. The CLI hand-over asks checkAuth for the level the web UI requires.",
    note=TRUST + "checkAuth's ghost assignments (who/which level was established) are specified by its contract; its body is verified under C04/C06 clauses where claimed. 'password' in the operator list admits any valid credential (documented behaviour).",
    design="7 (C01)"),
  "C02": dict(
-   text="Deductive proof that the certificate endpoint signs only for targetUser == the user checkAuth established, that GenSSHCertFileString emits exactly one principal (the user), user type, the parsed submitted key, and that the X.509 templates carry the user as CN, the submitted key, the CA as parent, non-CA + client-auth usage (call-site assertions on x509.CreateCertificate).",
+   text="Deductive proof that the certificate endpoint signs only for targetUser == the user checkAuth established, that GenSSHCertFileString emits exactly one principal (the user), user type, the parsed submitted key, and that the X.509 templates carry the user as CN, the submitted key, the CA as parent, non-CA + client-auth usage (call-site assertions on x509.CreateCertificate). reprocessUsername returns the lower-cased (unless disabled), filter-stripped name.",
    note=TRUST + "ssh.ParseAuthorizedKey, SignCert and x509.CreateCertificate are trusted contracts (they emit what the template says). SSH extensions: the five standard ones are present and nothing that is neither standard nor configured is (quantified map contract with a loop invariant); that every configured extension is copied with its value is not claimed (map iteration completeness).",
    design="7 (C02)"),
  "C03": dict(
@@ -21,23 +21,23 @@ CLAIMED = {
    note=TRUST + "float64->uint64 modelled as lowered on amd64; one clock instant per request; time values within 1970..2116.",
    design="7 (C03)"),
  "C04": dict(
-   text="Deductive proof, per consumer of signed artefacts (session/CLI tokens via getAuthInfoFromJWT, cookie re-signing, signed storage records), that acceptance implies: signature verifies under a published keymaster key, issuer and first audience are this server, the kind field is the one the consumer expects, nbf has passed (and exp for storage records); and that every verifier list handed to jwt.ParseSigned contains only asymmetric algorithms (map invariant with a quantifier over keys), so 'none'/HMAC can never be accepted.",
+   text="Deductive proof, per consumer of signed artefacts (session/CLI tokens via getAuthInfoFromJWT, cookie re-signing, signed storage records), that acceptance implies: signature verifies under a published keymaster key, issuer and first audience are this server, the kind field is the one the consumer expects, nbf has passed (and exp for storage records); and that every verifier list handed to jwt.ParseSigned contains only asymmetric algorithms (map invariant with a quantifier over keys), so 'none'/HMAC can never be accepted. The issuer is https:// + the server's own host identity (+ port); the fields of the signed payloads are exported (JSON skips unexported ones).",
    note=TRUST + "go-jose is a trusted contract (ParseSigned rejects unlisted algorithms; Claims returns nil only for a verifying key and then fills the destination with the signed payload). The OIDC code/access-token consumers are claimed under C12. GetSigned is under contract with its goroutine and select modelled as an arbitrary received value.",
    design="7 (C04)"),
  "C05": dict(
-   text="Deductive proof of the per-operation invariant behind the history property: every one of the nine sites that re-sign a session cookie with more factor bits is reached only when each new bit was verified in this request for the very user checkAuth established (ghost bit-set reset by checkAuth and extended by call-site ghost assignments on the VIP/Okta/TOTP/U2F/webauthn/bootstrap verifiers), the cookie that is upgraded belongs to that user, hardware-token challenges and bootstrap OTPs are consumed before the upgrade, an already accepted TOTP period is never evaluated again and is saved before acceptance is reported, expired bootstrap OTPs yield no hash; fresh session cookies are minted only for the user whose password was just accepted (password level), by the federated-login callback (federated level, named clause) or for the authenticated user's own unexpired CLI token (CLI level). A hardware-token challenge is verified only while unexpired; lib/vip: a push counts as approved only for the service's 'approved' status of the parsed answer, a code only when the service accepted it for one of the named user's active tokens, and the push request names the user it is later polled for.",
+   text="Deductive proof of the per-operation invariant behind the history property: every one of the nine sites that re-sign a session cookie with more factor bits is reached only when each new bit was verified in this request for the very user checkAuth established (ghost bit-set reset by checkAuth and extended by call-site ghost assignments on the VIP/Okta/TOTP/U2F/webauthn/bootstrap verifiers), the cookie that is upgraded belongs to that user, hardware-token challenges and bootstrap OTPs are consumed before the upgrade, an already accepted TOTP period is never evaluated again and is saved before acceptance is reported, expired bootstrap OTPs yield no hash; fresh session cookies are minted only for the user whose password was just accepted (password level), by the federated-login callback (federated level, named clause) or for the authenticated user's own unexpired CLI token (CLI level). A hardware-token challenge is verified only while unexpired; lib/vip: a push counts as approved only for the service's 'approved' status of the parsed answer, a code only when the service accepted it for one of the named user's active tokens, and the push request names the user it is later polled for. Every field of the stored profile is exported (gob skips unexported fields: the replay counter would not be stored); profiles are looked up by exact name (SQL text pinned).",
    note=TRUST + "Verdicts of the VIP/Okta services and of the u2f/webauthn/totp libraries are uninterpreted call results. Simultaneous presentation of a hardware-token challenge is covered under C16; of a bootstrap OTP (kept in the profile store, no mutex) it is not.",
    design="7 (C05)"),
  "C06": dict(
-   text="Deductive proof of checkAuth against its contract: success implies the returned level intersects the endpoint's mask, the identity/level/issue time were established by a verified unexpired keymaster_auth cookie, by a keymaster-signed non-deny-listed client certificate, by an IP-restricted certificate used inside its netblocks by an automation identity whose key is not deny-listed, or by a back-end accepted password after a limiter token; non-GET requests with a foreign Origin/Referer host are refused. The signing wrappers require the ghost 'authenticated' flag that only checkAuth's success sets, and call-graph rules pin the lib/certgen signers to those wrappers.",
+   text="Deductive proof of checkAuth against its contract: success implies the returned level intersects the endpoint's mask, the identity/level/issue time were established by a verified unexpired keymaster_auth cookie, by a keymaster-signed non-deny-listed client certificate, by an IP-restricted certificate used inside its netblocks by an automation identity whose key is not deny-listed, or by a back-end accepted password after a limiter token; non-GET requests with a foreign Origin/Referer host are refused. The signing wrappers require the ghost 'authenticated' flag that only checkAuth's success sets, and call-graph rules pin the lib/certgen signers to those wrappers. The key fingerprint is the lower-case hexadecimal SHA-256 form the deny list is written in; the logging wrapper hands the request on with the connection's peer address.",
    note=TRUST + "Effect functions covered: certificate signing, profile load/save/delete, user listing, token management, cookie minting and upgrade, OIDC token/userinfo marshalling; TLS chain verification is trusted (crypto/tls heap invariant). A handler that performs an effect through a function not under contract would escape (the call-graph rules pin the signers and the password back end only).",
    design="7 (C06)"),
  "C07": dict(
-   text="Deductive proof over the LDAP authenticator with a ghost context per attempt: while no server has answered nothing is decided or written (loop invariants over the server x bind-pattern loops); the first answer is final (returned verdict == the directory's verdict); the cache record is consulted only when no server answered, only for the same user and record type, and only its comparison with the submitted password can accept; acceptance writes the hash of the very password the directory confirmed with expiry now+expirationDuration (96 h, proved at the constructor) and is the only writer (call-graph rule); rejection evicts a cached hash that matches the rejected password. GetSigned (goroutine and select modelled as an arbitrary received value) accepts a record only if it verifies under a published keymaster key as a storage record, is unexpired and was signed for the looked-up user. checkUserPassword returns exactly the back end's verdict, and checkAuth/login establish the identity the back end accepted. authutil.CheckLDAPUserPassword binds as the user with the submitted password, accepts only after a successful bind and classifies a bind refused with 'Invalid Credentials' as an answer; DeleteSigned/UpsertSigned return nil only after committing their transaction and name the record they were asked for.",
+   text="Deductive proof over the LDAP authenticator with a ghost context per attempt: while no server has answered nothing is decided or written (loop invariants over the server x bind-pattern loops); the first answer is final (returned verdict == the directory's verdict); the cache record is consulted only when no server answered, only for the same user and record type, and only its comparison with the submitted password can accept; acceptance writes the hash of the very password the directory confirmed with expiry now+expirationDuration (96 h, proved at the constructor) and is the only writer (call-graph rule); rejection evicts a cached hash that matches the rejected password. GetSigned (goroutine and select modelled as an arbitrary received value) accepts a record only if it verifies under a published keymaster key as a storage record, is unexpired and was signed for the looked-up user. checkUserPassword returns exactly the back end's verdict, and checkAuth/login establish the identity the back end accepted. authutil.CheckLDAPUserPassword binds as the user with the submitted password, accepts only after a successful bind and classifies a bind refused with 'Invalid Credentials' as an answer; DeleteSigned/UpsertSigned return nil only after committing their transaction and name the record they were asked for. The SQL text of the record statements and the one-record-per-user-and-type constraint of the cache schema are pinned.",
    note=TRUST + "Directory answers, Argon2 and the SQL layer are uninterpreted call results; htpassword/command back ends are covered only through the pwauth interface verdict; the lag between primary and cache databases is C15 territory.",
    design="7 (C07)"),
  "C08": dict(
-   text="Deductive proof, per handler that reads or changes a profile or administers users, of the effect preconditions: LoadUserProfile/SaveUserProfile/DeleteUserProfile and the token-management handlers are reached only for the user checkAuth established, or for another user when the ghost admin flag was set by IsAdminUser for that established user and (for token changes/registrations) the established session carries the U2F bit; the user-administration and bootstrap-OTP handlers require the admin flag; automation certificates are signed only after isAutomationAdmin/IsAdminUser accepted the established user and only for a name in the configured automation lists; the admin cache returns a cached verdict only while younger than five minutes unless the directory failed. The administrator cache is written only by the administrator check (call-graph rule).",
+   text="Deductive proof, per handler that reads or changes a profile or administers users, of the effect preconditions: LoadUserProfile/SaveUserProfile/DeleteUserProfile and the token-management handlers are reached only for the user checkAuth established, or for another user when the ghost admin flag was set by IsAdminUser for that established user and (for token changes/registrations) the established session carries the U2F bit; the user-administration and bootstrap-OTP handlers require the admin flag; automation certificates are signed only after isAutomationAdmin/IsAdminUser accepted the established user and only for a name in the configured automation lists; the admin cache returns a cached verdict only while younger than five minutes unless the directory failed. The administrator cache is written only by the administrator check (call-graph rule). Profiles are looked up, replaced and deleted by exact user name (SQL text pinned).",
    note=TRUST + "Group membership lookups (getUserGroups: LDAP/gitdb) are the only assumed verdicts; _IsAdminUser (both directions) and isAutomationUser (soundness) are verified against 'configured name or member of a configured group'. The five-minute rule is proved on admincache.Cache.Get against the ghost clock. Templates rendering a profile are not modelled.",
    design="7 (C08)"),
  "C12": dict(
@@ -49,23 +49,23 @@ CLAIMED = {
    note=TRUST + "PGP decryption is an assumed contract (wrong passphrase => error). 'Exactly one transition under concurrent injections' is argued by mutual exclusion (trusted sync.Mutex contract), not by exploring interleavings. Session-cookie and token signing while sealed fail inside go-jose on the nil key (not under contract). The start-up load (before any listener) is exempted from the lock obligation by a named clause.",
    design="7 (C09)"),
  "C10": dict(
-   text="Deductive proof that ValidatePublicKeyStrength accepts exactly the property's strong keys (RSA >= 2048 bits and e >= 65537, NIST >= 256, Ed25519) and that every signing wrapper (SSH, X.509, Kubernetes, automation, refresh) is reached only with a key for which that predicate holds; no-panic obligations (index, nil, type assertion) for the address-extension decoder and the SSH key validator. The two readers of the RFC 3779 extension are panic-free for every extension content; the X.509, SSH and automation issuing functions are free of failing type assertions, nil call results dereferenced, bad indices/slices and divisions by zero; on the automation paths an unusable key is the client's error (4xx).",
+   text="Deductive proof that ValidatePublicKeyStrength accepts exactly the property's strong keys (RSA >= 2048 bits and e >= 65537, NIST >= 256, Ed25519) and that every signing wrapper (SSH, X.509, Kubernetes, automation, refresh) is reached only with a key for which that predicate holds; no-panic obligations (index, nil, type assertion) for the address-extension decoder and the SSH key validator. The two readers of the RFC 3779 extension are panic-free for every extension content; the X.509, SSH and automation issuing functions are free of failing type assertions, nil call results dereferenced, bad indices/slices and divisions by zero; on the automation paths an unusable key is the client's error (4xx). The cloud-role request handler is free of failing type assertions, nil call results dereferenced, bad indices/slices.",
    note=TRUST + "Parsers (x509, ssh, asn1) are trusted to return well-shaped values (type invariant of asn1.BitString; NIST curve sizes). The cloud-role path and panics inside dependency parsers are not covered.",
    design="7 (C10)"),
  "C11": dict(
-   text="Deductive proof (mathematical-int mode with no-overflow obligations) of the RFC 3779 codec: the decoder never panics, accepts exactly prefix lengths 0..32, yields octet j of the encoded block while 8*j < length and 0 beyond, and a /length mask; the encoder emits the mask's length and the first ceil(length/8) IPv4 octets (loop invariants over both copy loops); a lemma function over the two contracts proves that a canonical IPv4 netblock is read back with the same four octets and prefix length. The IP-certificate authenticator hands the TCP peer address (r.RemoteAddr) to the netblock test, and a refresh request keeps the authenticated identity. The verdict of VerifyIPRestrictedX509CertIP is verified in both directions against its definition (IPv4 families parsed from the first delegation extension, decoder, net.IPNet.Contains) and ExtractIPNetsFromIPRestrictedX509 returns only such blocks; an automation certificate (issued by the role-requesting CA) never authenticates as a keymaster user certificate.",
+   text="Deductive proof (mathematical-int mode with no-overflow obligations) of the RFC 3779 codec: the decoder never panics, accepts exactly prefix lengths 0..32, yields octet j of the encoded block while 8*j < length and 0 beyond, and a /length mask; the encoder emits the mask's length and the first ceil(length/8) IPv4 octets (loop invariants over both copy loops); a lemma function over the two contracts proves that a canonical IPv4 netblock is read back with the same four octets and prefix length. The IP-certificate authenticator hands the TCP peer address (r.RemoteAddr) to the netblock test, and a refresh request keeps the authenticated identity. The verdict of VerifyIPRestrictedX509CertIP is verified in both directions against its definition (IPv4 families parsed from the first delegation extension, decoder, net.IPNet.Contains) and ExtractIPNetsFromIPRestrictedX509 returns only such blocks; an automation certificate (issued by the role-requesting CA) never authenticates as a keymaster user certificate. The logging wrapper hands the request on with the connection's peer address unchanged.",
    note=TRUST + "The verdict of net.IPNet.Contains inside VerifyIPRestrictedX509CertIP (the iff-membership clause) is an assumed contract of that function (listed); asn1.Marshal/Unmarshal and x509 extension transport are trusted to round-trip. Minting: as many netblocks as requestor_netblock values were submitted (loop invariants), refresh: the very netblock list read from the presented certificate.",
    design="7 (C11)"),
  "C13": dict(
-   text="String-theory proof that CanRedirectToURL accepts only https, no query, no '..', a host equal to or a subdomain of a configured domain (exists-quantified over the list), a matching pattern when patterns are configured, nothing when unconfigured; the authorization handler redirects only to a prefix approved by that function (ghost state); same host rule for CORS origins. A client configuration is returned only for the id asked for.",
+   text="String-theory proof that CanRedirectToURL accepts only https, no query, no '..', a host equal to or a subdomain of a configured domain (exists-quantified over the list), a matching pattern when patterns are configured, nothing when unconfigured; the authorization handler redirects only to a prefix approved by that function (ghost state); same host rule for CORS origins. A client configuration is returned only for the id asked for. Domains, patterns and client id are read from their documented configuration keys.",
    note=TRUST + "url.Parse/Hostname are uninterpreted trusted contracts, operator-configured redirect patterns (non-constant regexps) are uninterpreted; browsers' divergent URL parsing is out of scope.",
    design="7 (C13)"),
  "C14": dict(
-   text="Deductive proof with a linear ghost token: checkUserPassword (the only caller of the back end, by a call-graph rule) requires a token that only a true rate.Limiter.Allow() grants, at both entry points (login form and basic-auth); validateUserTOTP evaluates a code only if two seconds have passed since the user's last check and no lock-out is in force, counts failures (they accumulate while the previous failure is less than a day old), locks out for an hour at every fifth failure and resets on success. The limiter is built after the configuration was parsed, from the burst and rate the state then holds.",
+   text="Deductive proof with a linear ghost token: checkUserPassword (the only caller of the back end, by a call-graph rule) requires a token that only a true rate.Limiter.Allow() grants, at both entry points (login form and basic-auth); validateUserTOTP evaluates a code only if two seconds have passed since the user's last check and no lock-out is in force, counts failures (they accumulate while the previous failure is less than a day old), locks out for an hour at every fifth failure and resets on success. The limiter is built after the configuration was parsed, from the burst and rate the state then holds. A counted TOTP failure is dated now; burst and rate are read from their documented configuration keys.",
    note=TRUST + "The numeric rate of the token bucket is rate.Limiter's; the TOTP gate is judged inside one critical section (lock-aware clauses shared with C16), other interleavings are not explored.",
    design="7 (C14)"),
  "C16": dict(
-   text="Deductive lock-set proof: every read and write of the shared session/challenge maps (localAuthData, vipPushCookie, pendingOauth2 under state.Mutex; totpLocalRateLimit under its own mutex; the Okta session cache under its mutex) and of their contents happens with the protecting mutex held (one obligation per access, in every function of /repo that touches them, found by a sweep over go/ssa); taking a mutex forgets what was known about the state it protects, so check-then-act sequences are proved only inside one critical section: the TOTP two-second gate is tested and published in the critical section entered last before a code is evaluated, and a hardware-token challenge is taken out of the shared map in the critical section that reads it, before the answer is verified (so a second presentation, however interleaved, finds none). An accepted TOTP code leaves the attempt's stamp in the gate's table. Profile write-back: one structural obligation per function that calls SaveUserProfile (it would have to write back inside the critical section of its load); /repo has no such section, so all fourteen existing writers fail and are recorded as known findings (history replayed on the real code), and any further writer is a violation.",
+   text="Deductive lock-set proof: every read and write of the shared session/challenge maps (localAuthData, vipPushCookie, pendingOauth2 under state.Mutex; totpLocalRateLimit under its own mutex; the Okta session cache under its mutex) and of their contents happens with the protecting mutex held (one obligation per access, in every function of /repo that touches them, found by a sweep over go/ssa); taking a mutex forgets what was known about the state it protects, so check-then-act sequences are proved only inside one critical section: the TOTP two-second gate is tested and published in the critical section entered last before a code is evaluated, and a hardware-token challenge is taken out of the shared map in the critical section that reads it, before the answer is verified (so a second presentation, however interleaved, finds none). An accepted TOTP code leaves the attempt's stamp in the gate's table. Profile write-back: one structural obligation per function that calls SaveUserProfile (it would have to write back inside the critical section of its load); /repo has no such section, so all fourteen existing writers fail and are recorded as known findings (history replayed on the real code), and any further writer is a violation. A shared (read) acquisition of an RWMutex allows reads of what it guards, not writes.",
    note=TRUST + "sync.Mutex is a trusted contract (held flag per goroutine; callees are assumed lock-balanced); the configuration loader is exempted by a named clause (state not yet shared). NOT covered, and declared out of reach of per-function contracts: simultaneous presentation of the one-time values that are not kept in a mutex-protected map (bootstrap OTP in the profile store, the OAuth2 state whose single use the provider enforces), unlocked reads of state.Signer.",
    design="7 (C16)"),
  "C17": dict(
@@ -78,7 +78,7 @@ CLAIMED = {
    note=TRUST + "html/template's auto-escaping of ordinary fields, HTMLEscapeString and the base64 alphabet are trusted contracts; pages written without the template engine (fmt.Fprintf of plain-text/JSON bodies) are not HTML and are not covered.",
    design="7 (C18)"),
  "C20": dict(
-   text="Deductive proof with a ghost 'signed but not yet published' flag: on every path of the four signing functions of cmd/keymasterd (user X.509, user SSH, role-requesting, cloud-role) a 200 response header is written, or the DER returned, only after the certificate signed in this request was handed to the event notifier, and the PEM body is encoded from the very DER that was published; call-graph rules pin every x509.CreateCertificate / ssh SignCert call in /repo to those functions (or named start-up code); the six publish entry points and everything they call in /repo contain no blocking channel operation (structural sweep) and use the subscriber table only under its mutex; the monitoring daemon's event loop saves a snapshot only if no event was recorded since it was taken (loop invariant over the select loop with a ghost dirty flag). BOUNDED stand-in, reported apart and never counted as proved: save -> load of the per-user history keeps order and drops only expired entries, run on the real functions for every history of <= 5 events (<= 4 in the quick tier). Publishers leave the subscriber table as they found it and their fan-out loops are exhaustive.",
+   text="Deductive proof with a ghost 'signed but not yet published' flag: on every path of the four signing functions of cmd/keymasterd (user X.509, user SSH, role-requesting, cloud-role) a 200 response header is written, or the DER returned, only after the certificate signed in this request was handed to the event notifier, and the PEM body is encoded from the very DER that was published; call-graph rules pin every x509.CreateCertificate / ssh SignCert call in /repo to those functions (or named start-up code); the six publish entry points and everything they call in /repo contain no blocking channel operation (structural sweep) and use the subscriber table only under its mutex; the monitoring daemon's event loop saves a snapshot only if no event was recorded since it was taken (loop invariant over the select loop with a ghost dirty flag). BOUNDED stand-in, reported apart and never counted as proved: save -> load of the per-user history keeps order and drops only expired entries, run on the real functions for every history of <= 5 events (<= 4 in the quick tier). Publishers leave the subscriber table as they found it and their fan-out loops are exhaustive. The per-subscriber writer does no socket I/O under the notifier mutex; the bounded history check also runs the expiry pass of the restarted daemon.",
    note=TRUST + "Delivery to a subscriber (TCP, JSON encoding) and the SSH wire encoding returned to the requester are not under contract; publication of web/service-provider login events is not claimed. The doubly linked history lists have no reachability predicate in the contract language: that clause is bounded, not proved.",
    design="7 (C20)"),
  "C19": dict(
@@ -86,7 +86,7 @@ CLAIMED = {
    note=TRUST + "That bytes reach only the intended sink (the data flow through bytes.Buffer/multipart inside createKeyBodyRequest) is argued by the absence of private-key serialisers, not by a taint proof; the FIDO/U2F device library (github.com/flynn/u2f/u2fhid) does not type-check in this sandbox (cgo/libudev) and is a body-less stub; RSA key size and agent lifetimes are not claimed.",
    design="7 (C19)"),
  "C15": dict(
-   text="Deductive proof (a) that every SaveUserProfile call in cmd/keymasterd is reached only with a profile loaded in this request, for the same user, from the primary (ghost 'from cache' flag set by LoadUserProfile): while the primary is unreachable nothing that would change a profile is attempted; (b) over copyDBIntoSQLite with a ghost transaction handle: the only statements issued directly on a database are SELECTs on the source; every insert statement is prepared on the one transaction begun on the destination, after that transaction emptied both mirrored tables; nothing is prepared or executed on the destination outside it; every copied row is written with the columns it was read with, in order; the commit happens only after both tables were emptied, never after a row that could not be read or written, and never while a finished row iteration has not been checked with Err() - so a completed copy mirrors additions, changes and deletions, and (database/sql transactions being atomic, trusted) a copy that fails at any statement leaves the previous content. The four writers return nil only after committing; the storage functions read and write under the name (type, expiry) given; the goroutines that ask the primary report only query results, so an unreachable primary ends in the cache branch.",
+   text="Deductive proof (a) that every SaveUserProfile call in cmd/keymasterd is reached only with a profile loaded in this request, for the same user, from the primary (ghost 'from cache' flag set by LoadUserProfile): while the primary is unreachable nothing that would change a profile is attempted; (b) over copyDBIntoSQLite with a ghost transaction handle: the only statements issued directly on a database are SELECTs on the source; every insert statement is prepared on the one transaction begun on the destination, after that transaction emptied both mirrored tables; nothing is prepared or executed on the destination outside it; every copied row is written with the columns it was read with, in order; the commit happens only after both tables were emptied, never after a row that could not be read or written, and never while a finished row iteration has not been checked with Err() - so a completed copy mirrors additions, changes and deletions, and (database/sql transactions being atomic, trusted) a copy that fails at any statement leaves the previous content. The four writers return nil only after committing; the storage functions read and write under the name (type, expiry) given; the goroutines that ask the primary report only query results, so an unreachable primary ends in the cache branch. SQL text and cache schema pinned; stored fields exported.",
    note=TRUST + "NOT covered, declared out of reach of contracts on /repo's functions: the gob encode/decode round trip of a profile (encoding/gob), the SQL engines and their crash behaviour (statement-level fault injection is another technique), cache-first reads while the primary is reachable.",
    design="7 (C15)"),
 }
